@@ -72,6 +72,9 @@ pub fn parse_args() -> Args {
                 a.jobs = v[i + 1].parse().unwrap();
                 i += 1;
             }
+            "--list" => {
+                a.only = Some("\u{1}list".into());
+            }
             x => panic!("unknown argument {}", x),
         }
         i += 1;
@@ -148,7 +151,15 @@ pub struct Spec {
     pub min_outcomes: usize,
 }
 
+/// wall budget of one worker over all its families (seconds): VERIF_E2_WALL, else 50 (quick) / 2700 (thorough)
+fn e2_wall(args: &Args) -> std::time::Duration {
+    let d = std::env::var("VERIF_E2_WALL").ok().and_then(|x| x.parse().ok()).unwrap_or(if args.thorough() { 2700 } else { 50 });
+    std::time::Duration::from_secs(d)
+}
+
 fn run_family_cases(args: &Args, fams: &[Family], acc: &mut Acc, shard: (u64, u64), verbose: bool) {
+    let t0 = std::time::Instant::now();
+    let wall = e2_wall(args);
     for (fi, f) in fams.iter().enumerate() {
         if f.thorough_only && !args.thorough() {
             continue;
@@ -164,7 +175,12 @@ fn run_family_cases(args: &Args, fams: &[Family], acc: &mut Acc, shard: (u64, u6
         let mut nontriv = 0;
         let mut calls = 0;
         let mut idx = off;
+        let mut cut = false;
         while idx < f.count {
+            if (idx / sn) % 16 == 0 && t0.elapsed() > wall {
+                cut = true;
+                break;
+            }
             guard::beat(fi, idx);
             let mut ctx = Ctx { acc, fam: f.name, idx, tier: &args.tier, verbose, calls: 0, nontrivial: false, out_hash: 0, skipped: false };
             (f.run)(idx, &mut ctx);
@@ -191,8 +207,11 @@ fn run_family_cases(args: &Args, fams: &[Family], acc: &mut Acc, shard: (u64, u6
         fs.cases += cases;
         fs.nontrivial += nontriv;
         fs.calls += calls;
-        fs.exhaustive = true;
+        fs.exhaustive = !cut;
         fs.bounds = f.bounds.clone();
+        if cut {
+            acc.caps_hit.push(format!("family {}: worker {}/{} stopped at index {} of {} (wall budget {:?} of the worker used up); only the cases below that index in its residue class were run", f.name, si, sn, idx, f.count, wall));
+        }
     }
 }
 
@@ -213,6 +232,15 @@ pub fn main_check(spec: Spec, make: impl Fn(&Args) -> Vec<Family>, make_parts: i
     let args = parse_args();
     guard::install_hook();
     let t0 = Instant::now();
+    if args.only.as_deref() == Some("\u{1}list") {
+        for f in make(&args) {
+            println!("{:<48} {:>14} cases{}", f.name, f.count, if f.thorough_only { "  (thorough only)" } else { "" });
+        }
+        for p in make_parts(&args) {
+            println!("{:<48} (in-process part)", p.name());
+        }
+        std::process::exit(0);
+    }
     // ---- replay
     if let Some(p) = &args.replay {
         let v: Value = serde_json::from_str(&std::fs::read_to_string(p).expect("replay file")).expect("replay json");
